@@ -586,7 +586,7 @@ def run_knap_impl(c):
     light = knap_cells(c) <= 60000
     for pre in c.get("pre", []):          # class A: earlier calls on the same objects with other options
         guarded(solve_knapsack, vals, ws, c["capacity"], minimize=pre, timeout=20)
-    r = guarded(solve_knapsack, vals, ws, c["capacity"], minimize=c["minimize"], timeout=30)
+    r = guarded(solve_knapsack, vals, ws, c["capacity"], minimize=c["minimize"], timeout=c.get("timeout", 30))
     if (_snap(vals), _snap(ws)) != before:
         return ("bad", f"solve_knapsack modified its inputs: {before} -> {(_snap(vals), _snap(ws))}")
     if r[0] != "ok":
@@ -595,6 +595,14 @@ def run_knap_impl(c):
         out = canon(r[1])
     except Exception as e:  # noqa: BLE001
         return ("bad", f"uncanonicalisable result {r[1]!r}: {e}")
+    if "init" in c:                        # class A2: the answer on the edited objects equals the answer of a fresh call on copies
+        rf = guarded(solve_knapsack, list(c["values"]), list(c["weights"]), c["capacity"], minimize=c["minimize"], timeout=30)
+        try:
+            outf = canon(rf[1]) if rf[0] == "ok" else rf
+        except Exception as e:  # noqa: BLE001
+            outf = ("bad", str(e))
+        if outf != out:
+            return ("bad", f"after an earlier call on {c['init']!r} and in-place edits the answer is {out!r}; a fresh call on a copy of the same input gives {outf!r}")
     if light:                              # class A: the same call again on the same objects gives the same answer
         r2 = guarded(solve_knapsack, vals, ws, c["capacity"], minimize=c["minimize"], timeout=30)
         try:
@@ -633,7 +641,7 @@ def run_bin_impl(c):
     for pre in c.get("pre", []):
         guarded(solve_bin_pack, sizes, c["capacity"], algorithm=pre, timeout=10)
     algo = "".join(list(c["algorithm"])) if isinstance(c["algorithm"], str) else c["algorithm"]     # equal, not identical, string object
-    r = guarded(solve_bin_pack, sizes, c["capacity"], algorithm=algo, timeout=30)
+    r = guarded(solve_bin_pack, sizes, c["capacity"], algorithm=algo, timeout=c.get("timeout", 30))
     if _snap(sizes) != before:
         return ("bad", f"solve_bin_pack modified its input: {before} -> {_snap(sizes)}")
     if r[0] != "ok":
@@ -642,6 +650,14 @@ def run_bin_impl(c):
         out = canon(r[1])
     except Exception as e:  # noqa: BLE001
         return ("bad", f"uncanonicalisable result {r[1]!r}: {e}")
+    if "init" in c:
+        rf = guarded(solve_bin_pack, list(c["sizes"]), c["capacity"], algorithm=c["algorithm"], timeout=20)
+        try:
+            outf = canon(rf[1]) if rf[0] == "ok" else rf
+        except Exception as e:  # noqa: BLE001
+            outf = ("bad", str(e))
+        if outf != out:
+            return ("bad", f"after an earlier call on {c['init']!r} and in-place edits the answer is {out!r}; a fresh call on a copy of the same input gives {outf!r}")
     if light:
         r2 = guarded(solve_bin_pack, sizes, c["capacity"], algorithm=c["algorithm"], timeout=20)
         try:
@@ -838,15 +854,23 @@ def cstatus(s):
     return s if s in ("OPTIMAL", "FEASIBLE") else "FEASIBLE"
 
 
+def cnats(xs):
+    """A list of nat.  Unary literals are written out by coqc constructor by constructor (thousands of indices around 2500
+    made a 12 MB term and minutes of elaboration), so long lists are emitted in binary and converted inside vm_compute."""
+    if sum(xs) <= 20000:
+        return clist(xs, cnat)
+    return f"(List.map Z.to_nat {clist(xs, cz)})"
+
+
 def knap_obs_q(out):
     if out[0] == "exc" and out[1] == "ValueError":
         return "None"
     if out[0] != "ok" or out[1][2] not in ("OPTIMAL", "FEASIBLE"):
         return None
     sel, obj, st = out[1]
-    if any(i < 0 or i > 5000 for i in sel):
+    if any(i < 0 or i > 200000 for i in sel):
         return None
-    return f"(Some ({clist(sel, cnat)}, {cq(obj)}, {st}))"
+    return f"(Some ({cnats(sel)}, {cq(obj)}, {st}))"
 
 
 def knap_obs_z(out):
@@ -855,9 +879,9 @@ def knap_obs_z(out):
     if out[0] != "ok" or out[1][2] not in ("OPTIMAL", "FEASIBLE"):
         return None
     sel, obj, st = out[1]
-    if obj.denominator != 1 or any(i < 0 or i > 5000 for i in sel):
+    if obj.denominator != 1 or any(i < 0 or i > 200000 for i in sel):
         return None
-    return f"(Some ({clist(sel, cnat)}, {cz(int(obj))}, {st}))"
+    return f"(Some ({cnats(sel)}, {cz(int(obj))}, {st}))"
 
 
 def knap_in_q(c):
@@ -876,7 +900,7 @@ def bin_obs(out):
     asg, k, st = out[1]
     if k.denominator != 1 or not (0 <= k <= 5000) or any(b < 0 or b > 5000 for b in asg):
         return None
-    return f"(Some ({clist(asg, cnat)}, {cnat(int(k))}, {st}))"
+    return f"(Some ({cnats(asg)}, {cnat(int(k))}, {st}))"
 
 
 def bin_in(c, with_algo=True):
@@ -1139,6 +1163,13 @@ def run(ctx: Ctx):
         "round 2: every implementation run checks that the caller's sequences are unmodified and (for small instances) that an identical second call "
         "returns the same answer; knapsack instances with more than 12 items are judged by an independent sparse reference DP (integer weights), "
         "cross-checked against brute force on small instances; large packing instances have their bin count known by construction",
+        "observation only (outside the property's finite, moderately scaled data; POLICY_X): NaN/inf values, weights, sizes, capacities; float values near 1e308 "
+        "whose sums overflow; float values of magnitude 2^53..2^80 that cancel; bin sizes/capacities of magnitude 2^600..2^1014 - such calls may return "
+        "anything or raise, a hang is cut by the guard; outcomes are counted in the histogram observation_only, never a violation",
+        "round 3: work volume - every loop (knapsack items / capacity columns / table cells / selected items / fallback sort; packing items / open bins / "
+        "bin scans) is driven past 2^12 iterations in the quick tier (maxima in coverage.work_max_iterations_per_loop, thresholds in the histogram), answers "
+        "by construction or by the sparse reference DP; in-place edits - a first call, then the caller's list objects are edited in place (same id, often same "
+        "length) and the judged call runs on them; finite float corner cases -0.0 and 33.0-vs-33 in every numeric argument are judged exactly",
         "not generated (by-design tolerance, outside the theorems' grid hypothesis d < 10^9): decimals finer than 1e-8; the Gallina models are evaluated only "
         "where the list-based DP stays affordable for vm_compute (histogram knap_float_guard: too-large-for-vm_compute) - larger instances are judged by the oracles only",
         "bin packing on non-dyadic decimals: the float run must use as many bins as the run of the same code on the integer-scaled instance; model correspondence "
@@ -1179,6 +1210,7 @@ def run(ctx: Ctx):
         cases += spelling_sweep(rng)
     # round-3 families: work volume of every loop, in-place edits between calls, float extremes
     from harness.props import C16_r3 as R3
+    R3.reset()
     for fam, q, t in R3.R3_KNAP:
         for _ in range(ctx.budget(q, t)):
             cases.append(R3.gen_knap_r3(rng, fam, thorough))
@@ -1209,12 +1241,13 @@ def run(ctx: Ctx):
         kind = c["kind"]
         ctx.count(f"{kind}_class", c["cls"])
         ctx.count(f"{kind}_outcome", out[1][2] if out[0] == "ok" else (out[1] if out[0] == "exc" else out[0]))
-        if c.get("x"):                          # inf / NaN / overflowing floats: own oracle, no model
-            bad = (R3.oracle_knap_x if kind == "knap" else R3.oracle_bin_x)(c, out)
-            ctx.count("x_outcome", f"{kind}:{out[1][2] if out[0] == 'ok' else out[1] if out[0] == 'exc' else out[0]}")
-            if bad:
-                ctx.violation(f"{'solve_knapsack' if kind == 'knap' else 'solve_bin_pack'} on float extremes violates clause '{bad[0]}': {bad[1]}",
-                              {"kind": kind, "case": c, "impl": repr(out), "clause": bad[0]})
+        if c.get("x"):      # inf / NaN / floats of overflowing magnitude: outside the property (POLICY_X) - observation only, never a violation
+            try:
+                bad = (R3.oracle_knap_x if kind == "knap" else R3.oracle_bin_x)(c, out)
+            except Exception as e:  # noqa: BLE001
+                bad = ("unjudgeable", str(e)[:80])
+            what = "hang" if out[0] == "hang" else "raises" if out[0] == "exc" else ("answer obeys the remaining clauses" if not bad else f"answer breaks '{bad[0]}'")
+            ctx.count("observation_only", f"{c['cls']}: {what}")
             continue
         for loop, cnt in (R3.knap_work(c, out) if kind == "knap" else R3.bin_work(c, out)).items():
             wm = ctx.extra.setdefault("work_max_iterations_per_loop", {})
@@ -1250,7 +1283,7 @@ def run(ctx: Ctx):
                 ks_meta.append((c, out))
             # correspondence with the rational model
             safe = knap_float_safe(c, out)
-            cheap = knap_model_cost(c) <= 450000 and len(c["values"]) <= 4900        # nat literals (indices) stay below 5000
+            cheap = knap_model_cost(c) <= 450000 and len(c["values"]) <= 5100
             ctx.count("knap_float_guard", ("compared" if cheap else "too-large-for-vm_compute") if safe else "skipped")
             if safe and cheap:
                 if obs is None:
@@ -1317,11 +1350,21 @@ def run(ctx: Ctx):
             ctx.count("bin_k_minus_opt", k - opt)
 
     ctx.extra["stage_s"]["oracles"] = round(_t.time() - _t0, 1)
-    for tag_, fn_ in (("knap_q", lambda: ctx.coq_check("knap_q", IMPORTS, KNAP_Q_T, KNAP_Q_CHK, kq_cases, shard=120)),
-                      ("knap_z", lambda: ctx.coq_check("knap_z", IMPORTS, KNAP_Z_T, KNAP_Z_CHK, kz_cases, shard=200)),
-                      ("knap_spec", lambda: ctx.coq_check("knap_spec", IMPORTS, KNAP_Q_T, KNAP_Q_SPEC, ks_cases, shard=300)),
-                      ("bin", lambda: ctx.coq_check("bin", IMPORTS, BIN_T, BIN_CHK, b_cases, shard=200)),
-                      ("bin_spec", lambda: ctx.coq_check("bin_spec", IMPORTS, BIN_SPEC_T, BIN_SPEC, bs_cases, shard=300))):
+
+    def split_check(tag, typ, chk, cs, shard):
+        """coqc's elaboration of one list literal holding several very large cases is far worse than linear (6 cases of 250 kB:
+        250 s, each alone: 3 s), so large cases get a shard of their own."""
+        small = [i for i, x in enumerate(cs) if len(x) <= 30000]
+        big = [i for i, x in enumerate(cs) if len(x) > 30000]
+        f1 = ctx.coq_check(tag, IMPORTS, typ, chk, [cs[i] for i in small], shard=shard)
+        f2 = ctx.coq_check(tag + "_large", IMPORTS, typ, chk, [cs[i] for i in big], shard=1) if big else []
+        return sorted([small[i] for i in f1] + [big[i] for i in f2])
+
+    for tag_, fn_ in (("knap_q", lambda: split_check("knap_q", KNAP_Q_T, KNAP_Q_CHK, kq_cases, 120)),
+                      ("knap_z", lambda: split_check("knap_z", KNAP_Z_T, KNAP_Z_CHK, kz_cases, 200)),
+                      ("knap_spec", lambda: split_check("knap_spec", KNAP_Q_T, KNAP_Q_SPEC, ks_cases, 300)),
+                      ("bin", lambda: split_check("bin", BIN_T, BIN_CHK, b_cases, 200)),
+                      ("bin_spec", lambda: split_check("bin_spec", BIN_SPEC_T, BIN_SPEC, bs_cases, 300))):
         _t0 = _t.time()
         res_ = fn_()
         ctx.extra["stage_s"]["coq_" + tag_] = round(_t.time() - _t0, 1)
